@@ -492,4 +492,115 @@ theorem rest_of_witnesses :
       some (some (ofString "(2021-01-03,2021-01-03,P0D)", ⟨⟨2021, 1, 3⟩, 0⟩, ⟨⟨2021, 1, 3⟩, 0⟩)) := by
   refine ⟨?_, ?_, ?_, ?_, ?_⟩ <;> decide
 
+/-! # Definedness (audit item 31): the theorems above take `f R = some r` as a hypothesis — here is when it holds
+
+`this_defined`, `n_days_defined`, `hms_defined` are above.  The month branch (`monthPeriod`) has no definedness lemma yet:
+it is exercised by the closed examples only. -/
+
+/-- definedness of "next `<weekday>`": the result exists whenever that day of the following week lies inside
+0001-01-01..9999-12-31 (otherwise `date + timedelta` raises OverflowError). -/
+theorem next_defined (R : DateTime) (hv : R.date.valid = true) (dow : Nat)
+    (h : mondayOrd R.date.ord + target dow - 1 + 7 ≤ maxOrd) : ∃ r, next R dow = some r := by
+  have tr : 1 ≤ target dow := by unfold target; split <;> omega
+  obtain ⟨r0, h0⟩ := this_defined R hv dow (by omega)
+  have s := this_spec R hv dow r0 h0
+  obtain ⟨r, hr⟩ := addDays_isSome r0 7 (by omega) (by omega)
+  exact ⟨r, by simp [next, h0, hr]⟩
+
+/-- definedness of "last `<weekday>`": exists whenever that day of the preceding week is not before 0001-01-01. -/
+theorem last_defined (R : DateTime) (hv : R.date.valid = true) (dow : Nat)
+    (h1 : 8 ≤ mondayOrd R.date.ord + target dow - 1) (h2 : mondayOrd R.date.ord + target dow - 1 ≤ maxOrd) :
+    ∃ r, last R dow = some r := by
+  have tr : 1 ≤ target dow := by unfold target; split <;> omega
+  obtain ⟨r0, h0⟩ := this_defined R hv dow h2
+  have s := this_spec R hv dow r0 h0
+  obtain ⟨r, hr⟩ := addDays_isSome r0 (-7) (by omega) (by omega)
+  exact ⟨r, by simp [last, h0, hr]⟩
+
+/-- … hence the three `parse_implicit_date` branches succeed under the same guards (no `example` needed). -/
+theorem weekday_branches_defined (R : DateTime) (hv : R.date.valid = true) (dow : Nat)
+    (h1 : 8 ≤ mondayOrd R.date.ord + target dow - 1) (h2 : mondayOrd R.date.ord + target dow - 1 + 7 ≤ maxOrd) :
+    (∃ r, thisWeekday R dow = some r) ∧ (∃ r, nextWeekday R dow = some r) ∧ (∃ r, lastWeekday R dow = some r) := by
+  obtain ⟨a, ha⟩ := this_defined R hv dow (by omega)
+  obtain ⟨b, hb⟩ := next_defined R hv dow h2
+  obtain ⟨c, hc⟩ := last_defined R hv dow h1 (by omega)
+  exact ⟨⟨(luisDateOf a, a), by simp [thisWeekday, ha]⟩, ⟨(luisDateOf b, b), by simp [nextWeekday, hb]⟩,
+    ⟨(luisDateOf c, c), by simp [lastWeekday, hc]⟩⟩
+
+/-- definedness of a special day with swift `k`: exists exactly when reference + k days stays inside the calendar. -/
+theorem special_day_defined (R : DateTime) (hv : R.date.valid = true) (k : Int)
+    (h1 : 1 ≤ (R.date.ord : Int) + k) (h2 : (R.date.ord : Int) + k ≤ maxOrd) : ∃ r, specialDay R k = some r := by
+  unfold specialDay
+  rw [safeCreate_valid R.date hv]
+  obtain ⟨r, hr⟩ := addDays_isSome ⟨R.date, 0⟩ k h1 h2
+  exact ⟨(luisDateOf r, r), by simp [hr]⟩
+
+/-- today / tomorrow / yesterday exist for every reference except the two ends of the calendar. -/
+theorem today_tomorrow_yesterday_defined (R : DateTime) (hv : R.date.valid = true) :
+    (∃ r, specialDay R 0 = some r) ∧ (R.date.ord < maxOrd → ∃ r, specialDay R 1 = some r) ∧
+    (2 ≤ R.date.ord → ∃ r, specialDay R (-1) = some r) := by
+  have rr := ord_range R.date hv
+  exact ⟨special_day_defined R hv 0 (by omega) (by omega), fun h => special_day_defined R hv 1 (by omega) (by omega),
+    fun h => special_day_defined R hv (-1) (by omega) (by omega)⟩
+
+/-- definedness of this / next / last week (any shift `k`): exists whenever the reference's OWN week lies inside the
+calendar (the code first computes Thursday / Monday / Sunday of the reference's week: in the last, incomplete week of year
+9999 `this(ref, SUNDAY)` overflows whatever the shift — witness below), the Monday of the shifted week is not before
+0001-01-01 and the Monday after it not after 9999-12-31. -/
+theorem week_period_defined (R : DateTime) (hv : R.date.valid = true) (k : Int)
+    (hin : mondayOrd R.date.ord + 6 ≤ maxOrd)
+    (h1 : 1 ≤ (mondayOrd R.date.ord : Int) + 7 * k) (h2 : (mondayOrd R.date.ord : Int) + 7 * k + 7 ≤ maxOrd) :
+    ∃ r, weekPeriod R k = some r := by
+  have m := mondayOrd_spec R.date.ord (ord_range R.date hv).1
+  have rr := ord_range R.date hv
+  have t4 : target 4 = 4 := by decide
+  have t1 : target 1 = 1 := by decide
+  have t7 : target 7 = 7 := by decide
+  obtain ⟨a, ha⟩ := this_defined R hv 4 (by rw [t4]; omega)
+  obtain ⟨b, hb⟩ := this_defined R hv 1 (by rw [t1]; omega)
+  obtain ⟨c, hc⟩ := this_defined R hv 7 (by rw [t7]; omega)
+  have sa := this_spec R hv 4 a ha
+  have sb := this_spec R hv 1 b hb
+  have sc := this_spec R hv 7 c hc
+  rw [t4] at sa; rw [t1] at sb; rw [t7] at sc
+  obtain ⟨a', ha'⟩ := addDays_isSome a (7 * k) (by omega) (by omega)
+  obtain ⟨b', hb'⟩ := addDays_isSome b (7 * k) (by omega) (by omega)
+  obtain ⟨c', hc'⟩ := addDays_isSome c (7 * k) (by omega) (by omega)
+  have sc' := addDays_spec c sc.1 (7 * k) c' hc'
+  obtain ⟨e, he⟩ := addDays_isSome c' 1 (by omega) (by omega)
+  refine ⟨(pad 4 a'.date.y ++ [45, 87] ++ pad 2 (isoCalendar a'.date).2.1, b', e), ?_⟩
+  unfold weekPeriod
+  simp only [ha, hb, hc, Option.bind_some, addDelta_days a sa.1, addDelta_days b sb.1, addDelta_days c sc.1, ha', hb', hc',
+    addDelta_days c' sc'.1, he]
+
+/-- the guard `hin` is needed: "last week" asked on 9999-12-31 (a Friday) raises although last week exists. -/
+example : weekPeriod ⟨⟨9999, 12, 31⟩, 0⟩ (-1) = none := by decide
+
+/-- definedness of this / next / last year (any shift `k`): exists whenever both the shifted year and the year after it
+are inside 1..9999. -/
+theorem year_period_defined (R : DateTime) (hv : R.date.valid = true) (k : Int)
+    (h1 : 1 ≤ (R.date.y : Int) + k) (h2 : (R.date.y : Int) + k + 1 ≤ 9999) : ∃ r, yearPeriod R k = some r := by
+  obtain ⟨tmp, ht⟩ := datedeltaAdd_years_isSome R.date hv k h1 (by omega)
+  have hy := datedeltaAdd_years R.date hv k tmp ht
+  have v31 : (⟨tmp.y, 12, 31⟩ : Date).valid = true := by
+    have := (valid_iff tmp).1 hy.1
+    simp [Date.valid, daysInMonth, this.1, this.2.1]
+  have sc := safeCreate_ymd tmp.y 12 31 v31
+  have o := ord_range ⟨tmp.y, 12, 31⟩ v31
+  have lt : (⟨tmp.y, 12, 31⟩ : Date).ord < maxOrd := by
+    have v2 : (⟨tmp.y + 1, 1, 1⟩ : Date).valid = true := by
+      have : tmp.y + 1 ≤ 9999 := by omega
+      simp [Date.valid, daysInMonth, this]
+    have := ord_lt_of_lexLt ⟨tmp.y, 12, 31⟩ ⟨tmp.y + 1, 1, 1⟩ v31 v2 (by simp [Date.lexLt])
+    have := ord_range ⟨tmp.y + 1, 1, 1⟩ v2
+    omega
+  obtain ⟨e, he⟩ := addDays_isSome ⟨⟨tmp.y, 12, 31⟩, 0⟩ 1 (by simp only; omega) (by simp only; omega)
+  refine ⟨(pad 4 tmp.y, safeCreateFromMinValue tmp.y 1 1, e), ?_⟩
+  unfold yearPeriod addDelta
+  simp only [ht, Option.map_some, Option.bind_some]
+  rw [sc]
+  have := addDelta_days ⟨⟨tmp.y, 12, 31⟩, 0⟩ v31 1
+  unfold addDelta at this
+  rw [this, he]
+  rfl
 end RTV.DateUtils
